@@ -73,12 +73,16 @@ ASSUMPTIONS = ['CPython ast.parse is the judge of "parses to"; one API call is o
 LEVEL_TEXT = ('Lean 4 theorems about a 1-D document model: a single-node replacement keeps the tree well formed and every other '
               'node on its text, for every tree/path/replacement, and by induction for every sequence of edits (steps_wf); '
               'tied to /repo by predicting all node positions of real replace() calls and by running the proved checker on '
-              'pfst post-states. The CPython-judged sweep over all edit families checks the external hypothesis per case and '
-              'is the only tie for unmodelled handlers.')
+              'pfst post-states. Also modelled with their own theorems: the separator / delimiter primitives of sequence edits '
+              '(C01b, correspondence on real calls) and the "delete all elements" decision with the block grammar it protects '
+              '(C01c, table extracted from the real function and from CPython on every run). The CPython-judged sweeps over all '
+              'edit families (histories on a fixed corpus + deterministic products: containers, blocks, primitive fields, moves, '
+              'par/unpar, optional children deleted / added, line-comment and docstring puts) check the external hypothesis per '
+              'case and are the only tie for unmodelled handlers.')
 LEVEL_NOTE = ('Partial: handlers are not modelled individually; "CPython parses the post-state to the live tree" is checked per '
               'case on a fixed corpus (sampling). Genuine defects found on the pinned tree are repaired (fix: commits) or listed '
               'in known_findings.json.')
-TECHNIQUE = 'Lean 4 proof (induction over trees and edit sequences) + model/implementation correspondence + CPython-judged sweep'
+TECHNIQUE = 'Lean 4 proof (induction over trees and edit sequences, decide over extracted tables) + model/implementation correspondence + CPython-judged sweep'
 
 CORPUS_SEED = 20260925          # the sweep corpus does not depend on VERIF_SEED (triaged once on the unchanged tree)
 
